@@ -6,6 +6,8 @@
 #ifdef ASL_VERIF
 
 enum { ASL_VP_ATOMIC = 1, ASL_VP_THREAD_END = 2, ASL_VP_FLAG = 3 };
+enum { ASL_VP_ATOMIC_READ = 21 }; // a read of an AtomicCount is a step of its own: "decrement, then read the count again" can be split
+#define ASL_VERIF_HAVE_COUNT_READ_POINT
 
 #ifdef ASL_VERIF_NOSCHED
 static inline void asl_verif_point(int, const void*) {}
